@@ -39,6 +39,7 @@ class FnSpec:
         self.attrs = []
         self.clauses = []    # (where, kind, name, text) where: 0 fn-level, n loop ordinal
         self.edits = []      # (op, rule/name, pattern, text)
+        self.closures = {}   # ordinal -> {'params': text|None, 'ret': text|None}
         self.line = 0
 
 
@@ -77,6 +78,13 @@ def parse_specs(text, fname='<spec>'):
             cur.attrs.append(arg)
         elif d == 'loop':
             loop = int(arg)
+        elif d == 'closure':
+            loop = ('closure', int(arg))
+            cur.closures.setdefault(int(arg), {'params': None, 'ret': None})
+        elif d == 'params':
+            cur.closures[loop[1]]['params'] = arg
+        elif d == 'cret':
+            cur.closures[loop[1]]['ret'] = arg
         elif d in ('requires', 'ensures', 'decreases', 'invariant', 'invariant_except_break', 'recommends', 'opens_invariants', 'no_unwind'):
             body = []
             while i < len(lines) and not lines[i].lstrip().startswith('@'):
@@ -216,6 +224,53 @@ def find_loops(text, body_a):
     return res
 
 
+CLOSURE_PREV = {'(', ',', '=', '{', ';', '>', '[', ':'}
+
+
+def find_closures(text, body_a):
+    """closures in source order: (params_a, params_b, body_a, body_b, is_block)
+    params span excludes the bars."""
+    toks = rsx.tokenize(text)
+    s = rsx.sig(toks)
+    res = []
+    n = 0
+    while n < len(s):
+        t = toks[s[n]]
+        if t.a >= body_a and t.k == rsx.P and t.s == '|':
+            prev = toks[s[n - 1]]
+            ok = (prev.k == rsx.P and prev.s in CLOSURE_PREV) or (prev.k == rsx.ID and prev.s in ('move', 'return', 'else'))
+            if ok:
+                # params until the matching bar
+                m = n + 1
+                while not (toks[s[m]].k == rsx.P and toks[s[m]].s == '|'):
+                    if toks[s[m]].k == rsx.P and toks[s[m]].s in rsx.OPEN:
+                        m = s.index(rsx.match_close(toks, s[m]))
+                    m += 1
+                pa, pb = t.b, toks[s[m]].a
+                b0 = m + 1
+                tb = toks[s[b0]]
+                if tb.k == rsx.P and tb.s == '{':
+                    e = rsx.match_close(toks, s[b0])
+                    res.append((pa, pb, tb.a, toks[e].b, True))
+                    n = b0 + 1  # closures nested inside are found too
+                    continue
+                # expression body: until , ) ; } ] at depth 0
+                j = b0
+                while j < len(s):
+                    tj = toks[s[j]]
+                    if tj.k == rsx.P and tj.s in rsx.OPEN:
+                        j = s.index(rsx.match_close(toks, s[j])) + 1
+                        continue
+                    if tj.k == rsx.P and (tj.s in rsx.CLOSE or tj.s in ',;'):
+                        break
+                    j += 1
+                res.append((pa, pb, tb.a, toks[s[j - 1]].b, False))
+                n = b0
+                continue
+        n += 1
+    return res
+
+
 def _indent(block, pad):
     return '\n'.join((pad + l.strip()) if l.strip() else '' for l in block.split('\n'))
 
@@ -248,15 +303,33 @@ def inject(text, fs, oblig_lines=None, what=''):
     body_a = toks[s[body]].a
     loops = find_loops(text, body_a)
     by_loop = {}
+    inserts = []  # (byte offset, text)
     for (lp, kind, name, cl) in fs.clauses:
         by_loop.setdefault(lp, []).append((kind, name, cl))
-    inserts = []  # (byte offset, text)
+    closures = find_closures(text, body_a) if fs.closures else []
+    for n, cinfo in fs.closures.items():
+        if n > len(closures):
+            raise LostAnchor('%s: closure %d not found (function has %d closures)' % (fs.path, n, len(closures)))
+        (pa, pb, ba, bb, is_block) = closures[n - 1]
+        cls = by_loop.get(('closure', n), [])
+        hdr = ''
+        if cinfo['ret']:
+            hdr += ' -> (' + cinfo['ret'] + ')'
+        spec_txt = _render(cls, fs.path, 'closure%d' % n, '                ') if cls else ''
+        if is_block:
+            inserts.append((ba, hdr + ('\n' + spec_txt + '\n            ' if spec_txt else ' ')))
+        else:
+            inserts.append(((ba, bb), hdr + ('\n' + spec_txt + '\n            ' if spec_txt else ' ') + '{ ' + text[ba:bb] + ' }'))
+        if cinfo['params'] is not None:
+            inserts.append(((pa, pb), cinfo['params']))
     for lp, cls in by_loop.items():
-        if lp == 0:
+        if lp == 0 or isinstance(lp, tuple):
             continue
         if lp > len(loops):
             raise LostAnchor('%s: loop %d not found (function has %d loops)' % (fs.path, lp, len(loops)))
         inserts.append((loops[lp - 1][1], _render(cls, fs.path, 'loop%d' % lp, '            ')))
+    if getattr(fs, 'vacuity_twin', False):
+        inserts.append(((body_a + 1, body_a + 1), ' assert(false); /*@ob %s::VACUITY_TWIN */ ' % fs.path))
     fn_cls = by_loop.get(0, [])
     if fn_cls:
         inserts.append((body_a, _render(fn_cls, fs.path, '', '        ')))
@@ -277,6 +350,8 @@ def inject(text, fs, oblig_lines=None, what=''):
     for pos, ins in sorted(inserts, key=key, reverse=True):
         if isinstance(pos, tuple):
             text = text[:pos[0]] + ins + text[pos[1]:]
+        elif ins.startswith(' ->') or ins == ' ':
+            text = text[:pos] + ins + text[pos:]
         else:
             text = text[:pos] + '\n' + ins + '\n    ' + text[pos:]
     return ''.join(a + '\n' for a in fs.attrs) + text, rewrites
